@@ -16,6 +16,7 @@ import (
 	"sort"
 	"strconv"
 	"strings"
+	"unicode"
 	"unicode/utf16"
 	"unicode/utf8"
 )
@@ -513,9 +514,14 @@ func counterpart(v reflect.Value) *Node {
 	return U()
 }
 
-// ExportedName is otto's (and Go's, for ASCII) test for an exported identifier.
+// ExportedName is Go's test for an exported identifier: the first character is
+// an upper-case letter (of any script).
 func ExportedName(name string) bool {
-	return name != "" && name[0] >= 'A' && name[0] <= 'Z'
+	if name == "" {
+		return false
+	}
+	r, _ := utf8.DecodeRuneInString(name)
+	return unicode.IsUpper(r)
 }
 
 // KeyString renders a map key the way a JS property name denotes it.
